@@ -4,7 +4,10 @@ import (
 	"context"
 	"encoding/json"
 	"fmt"
+	"io"
 	"math/rand"
+	"net/http"
+	"net/http/httptest"
 	"strings"
 	"sync"
 	"time"
@@ -335,5 +338,121 @@ func runRequestSchedules(c *hk.Ctx, ctl *controller) {
 			}
 		}
 		f.Close()
+	}
+}
+
+// runClientReopen: the REAL Streamable client against a scripted server that numbers its events exactly as the real server
+// does — a fresh counter per GET stream, "evt-<unix ms>-<n>" — and re-opens its listening stream (the transport's own
+// re-open, through a hook). The events of the re-opened stream carry ids that are not newer than the last id of the old
+// stream (same millisecond, counter restarted at 1): they are new messages and every one of them must reach the handler.
+func runClientReopen(c *hk.Ctx) {
+	var mu sync.Mutex
+	gets := 0
+	opened := make(chan int, 8)
+	release := make(chan struct{}, 8)
+	const ms = 1759000000000
+	mux := http.NewServeMux()
+	mux.HandleFunc("/mcp", func(w http.ResponseWriter, r *http.Request) {
+		switch r.Method {
+		case http.MethodPost:
+			body, _ := io.ReadAll(r.Body)
+			var m map[string]any
+			json.Unmarshal(body, &m)
+			if m["method"] == "initialize" {
+				w.Header().Set("Content-Type", "application/json")
+				w.Header().Set("Mcp-Session-Id", "0123456789abcdef0123456789abcdef")
+				id, _ := json.Marshal(m["id"])
+				fmt.Fprintf(w, `{"jsonrpc":"2.0","id":%s,"result":{"protocolVersion":"2025-03-26","capabilities":{"tools":{}},"serverInfo":{"name":"s","version":"1"}}}`, id)
+				return
+			}
+			w.WriteHeader(202)
+		case http.MethodGet:
+			mu.Lock()
+			gets++
+			n := gets
+			mu.Unlock()
+			w.Header().Set("Content-Type", "text/event-stream")
+			w.WriteHeader(200)
+			fl := w.(http.Flusher)
+			fl.Flush()
+			for i := 1; i <= 3; i++ { // a fresh id counter on every stream, one millisecond for all of them
+				fmt.Fprintf(w, "id: evt-%d-%d\ndata: {\"jsonrpc\":\"2.0\",\"method\":\"notifications/verif\",\"params\":{\"stream\":%d,\"n\":%d}}\n\n", ms, i, n, i)
+				fl.Flush()
+			}
+			opened <- n
+			select {
+			case <-release:
+			case <-r.Context().Done():
+			}
+		case http.MethodDelete:
+			w.WriteHeader(200)
+		}
+	})
+	ts := httptest.NewServer(mux)
+	defer ts.Close()
+	cl, err := mcp.NewClient(ts.URL+"/mcp", mcp.Implementation{Name: "v", Version: "1"}, mcp.WithClientLogger(hk.QuietLogger{}), mcp.WithClientGetSSEEnabled(true))
+	if err != nil {
+		c.Noise()
+		return
+	}
+	defer cl.Close()
+	got := map[string]int{}
+	cl.RegisterNotificationHandler("notifications/verif", func(n *mcp.JSONRPCNotification) error {
+		b, _ := json.Marshal(n.Params.AdditionalFields)
+		mu.Lock()
+		got[string(b)]++
+		mu.Unlock()
+		return nil
+	})
+	ctx, cancel := context.WithTimeout(context.Background(), 10*time.Second)
+	defer cancel()
+	if _, err := cl.Initialize(ctx, &mcp.InitializeRequest{}); err != nil {
+		c.Noise()
+		return
+	}
+	wait := func() bool {
+		select {
+		case <-opened:
+			return true
+		case <-time.After(3 * time.Second):
+			return false
+		}
+	}
+	streams := 1
+	if !wait() {
+		c.Count("client-reopen", false, nil, "no-first-stream")
+		return
+	}
+	for k := 0; k < 2; k++ {
+		time.Sleep(30 * time.Millisecond) // let the handler see the first stream's events
+		if !mcp.VerifReopenGetStream(ctx, cl) || !wait() {
+			break
+		}
+		streams++
+	}
+	time.Sleep(200 * time.Millisecond)
+	mu.Lock()
+	defer mu.Unlock()
+	var missing []string
+	for s := 1; s <= streams; s++ {
+		for i := 1; i <= 3; i++ {
+			k := fmt.Sprintf(`{"n":%d,"stream":%d}`, i, s)
+			if got[k] != 1 {
+				missing = append(missing, fmt.Sprintf("%s x%d", k, got[k]))
+			}
+		}
+	}
+	for i := 0; i < 8; i++ {
+		select {
+		case release <- struct{}{}:
+		default:
+		}
+	}
+	c.Count("client-reopen", streams > 1, map[string]any{"streams": streams, "delivered": len(got)}, fmt.Sprintf("client-reopen-%d", streams))
+	if len(missing) > 0 {
+		c.Violate(hk.Violation{Fingerprint: "streams:client:events-of-reopened-stream-not-delivered-once",
+			What:     "the real client re-opened its listening stream; the server numbers the events of every stream from 1 (\"evt-<ms>-<n>\", as the real server does): each event of each stream is a new message and must reach the handler exactly once",
+			Input:    map[string]any{"streams": streams, "events_per_stream": 3, "ids": "evt-<same ms>-1..3 on every stream"},
+			Observed: missing})
 	}
 }
